@@ -237,4 +237,30 @@ let run (ws : string list) : string =
     let draws w = String.concat "." (Stdlib.List.rev (Stdlib.List.filter_map (function Exec.EvRandom v -> Some (string_of_n v) | _ -> None) w.Exec.w_trace)) in
     let show (w, o) = "S=" ^ show_sched w.Exec.w_e.Exec.recorded ^ ":R=" ^ draws w ^ ":T=" ^ show_outcome o in
     "N=" ^ (if failed then "fail" else string_of_int (Stdlib.List.length execs)) ^ " " ^ String.concat " | " (Stdlib.List.map show execs)
+  (* outcomes <cap> <ms> <objs> <bodies>: the model's check_dfs over the program; the distinct outcomes (per-task operation results
+     and termination) in the harness's format, and whether the enumeration was complete *)
+  | ["outcomes"; cap; ms; objs; bodies] ->
+    let cap = int_of_string cap in
+    let objs = Stdlib.List.mapi parse_obj (split_on ',' objs) in
+    let ((execs, _), _) = Prog.run_prog_dfs (nat_of_int (cap + 1)) fuel (parse_ms ms) (Some (nat_of_int cap)) false objs (parse_bodies bodies) in
+    let n = Stdlib.List.length execs in
+    let failed = Stdlib.List.exists (fun (_, o) -> Runner.is_failure o) execs in
+    let module SS = Set.Make (String) in
+    let module IM = Map.Make (Int) in
+    let outs = ref SS.empty in
+    Stdlib.List.iteri (fun i (w, o) ->
+      let per = ref IM.empty in
+      Stdlib.List.iter (function
+        | Exec.EvOp (t, tag, vals, _) ->
+          let tg = string_of_n tag in
+          if tg <> "9" && tg <> "30" then begin
+            let t = int_of_nat t in
+            let cur = (try IM.find t !per with Not_found -> []) in
+            per := IM.add t ((tg ^ ":" ^ show_ns vals) :: cur) !per
+          end
+        | _ -> ()) (Stdlib.List.rev w.Exec.w_trace);
+      let term = if i + 1 = n && Runner.is_failure o then show_outcome o else "ok" in
+      let s = String.concat ";" (Stdlib.List.map (fun (t, v) -> string_of_int t ^ "=" ^ String.concat "," (Stdlib.List.rev v)) (IM.bindings !per)) in
+      outs := SS.add (s ^ "#" ^ term) !outs) execs;
+    Printf.sprintf "N=%d complete=%d %s" n (if (not failed) && n < cap then 1 else 0) (String.concat "|" (SS.elements !outs))
   | _ -> failwith "prog: bad case"
